@@ -25,6 +25,7 @@ for d in sorted(glob.glob(os.path.join(root, "C*"))):
                           result=confirm),
         checks_run=dict(how="scripts/try_mutant_wt.sh / scripts/try_mutant.sh: change applied to a scratch worktree of /repo (or to /repo itself and reverted straight afterwards), ./check <id> --tier <tier> pointed at it",
                         runs=runs),
+        first_attempt=(open(os.path.join(d, "first_attempt.txt")).read().strip() if os.path.exists(os.path.join(d, "first_attempt.txt")) else "detected by the first version of the check that was run against it"),
         caught_by=sorted(set(r["check"] + ":" + r["tier"] for r in runs if r["detected"])),
         missed_by=sorted(set(r["check"] + ":" + r["tier"] for r in runs if not r["detected"])),
     )
